@@ -804,7 +804,12 @@ fn run_case(c: &Case) -> Result<Stats, String> {
                         .filter(|x| key1_val(c.key, x.0) == r[0])
                         .map(|x| v_of(x.2).map(|v| Val::I(v as i128)).unwrap_or(Val::Null))
                         .collect();
-                    let tag = if r[nk] == Val::Null && inputs.last() == Some(&Val::Null) && inputs.iter().any(|v| *v != Val::Null) {
+                    // (rows of the group coming from different source partitions reach the aggregate in an order the
+                    // case does not determine: any mix of NULL and non-NULL inputs may then be this history)
+                    let parts_of_group: HashSet<usize> =
+                        c.rows.iter().zip(c.part.iter()).filter(|(x, _)| key1_val(c.key, x.0) == r[0]).map(|(_, p)| *p).collect();
+                    let last_is_null = inputs.last() == Some(&Val::Null) || (parts_of_group.len() > 1 && inputs.contains(&Val::Null));
+                    let tag = if r[nk] == Val::Null && last_is_null && inputs.iter().any(|v| *v != Val::Null) {
                         TOPK_NULL_AFTER_VALUE
                     } else {
                         ""
